@@ -592,7 +592,7 @@ def _make_rrsig_signature_data(
     rrname, rdataset = _get_rrname_rdataset(rrset)
 
     data = b""
-    wire = rrsig.to_wire(origin=signer)
+    wire = rrsig.to_wire(origin=origin)
     assert wire is not None  # for mypy
     data += wire[:18]
     data += signer.to_digestable()
